@@ -9,7 +9,8 @@ Init == /\ tid \in 1..NTr /\ l = 1 /\ InitWith(Traces[tid].cfg)
 NumChk(name, a, b) == IF a = "None" \/ b = "None" THEN Chk(name, a, b) ELSE ChkB(name, Close(a, b), <<a, b>>)
 Counters(s) == /\ Chk("total", s.total, Ev.total) /\ Chk("since", s.since, Ev.since) /\ Chk("state", s.st, Ev.state)
 InfoOK(s) == IF s.st = "drift" /\ hcfg.F > 1
-               THEN /\ Chk("feature_info argmax", s.info.argmax - 1, Ev.argmax)
+               THEN /\ ChkB("feature_info argmax (a feature whose distance grew most; ties within the comparison tolerance admitted)",
+                         (Ev.argmax + 1) \in s.info.cands, <<s.info.argmax - 1, Ev.argmax>>)
                     /\ \A f \in 1..hcfg.F : NumChk("feature_info distances", s.info.dists[f], Ev.fdists[f])
                ELSE TRUE
 Stats(s) == /\ NumChk("current_distance", s.dist, Ev.dist) /\ NumChk("epsilon", s.ceps, Ev.eps)
